@@ -471,6 +471,11 @@ macro_rules! strict_backend {
                     "strict.source" => val(o_sf_o(&oh(&a["f"]).source())),
                     "strict.target" => val(o_sf_o(&oh(&a["f"]).target())),
                     "strict.unit" => val(o_sf_o(&<OH as Monoidal>::unit())),
+                    // the same operations through the categorical traits (where an inherent method of the same name exists)
+                    "strict.source_trait" => val(o_sf_o(&<OH as Arrow>::source(&oh(&a["f"])))),
+                    "strict.target_trait" => val(o_sf_o(&<OH as Arrow>::target(&oh(&a["f"])))),
+                    "strict.identity_trait" => val(o_oh(&<OH as Arrow>::identity(sf_o(&a["w"])))),
+                    "strict.spider_trait" => opt(<OH as Spider<K>>::spider(ff(&a["s"]), ff(&a["t"]), sf_o(&a["w"])).map(|f| o_oh(&f))),
                     "strict.is_acyclic" => val(json!(oh(&a["f"]).is_acyclic())),
                     "strict.is_monogamous" => val(json!(oh(&a["f"]).is_monogamous())),
 
